@@ -385,6 +385,10 @@ if_futures! {
     pub mod future;
 }
 
+#[cfg(feature = "verif")]
+#[doc(hidden)]
+pub mod verif;
+
 /// Mock version of `std::thread_local!`.
 // This is defined *after* all other code in `loom`, since we use
 // `scoped_thread_local!` internally, which uses the `std::thread_local!` macro
